@@ -658,6 +658,17 @@ def discr_switches(body, adt_regex=None):
     return out
 
 
+def variant_target(sw, name):
+    """target block of enum variant `name` in a discr_switches() row (explicit arm, or the
+    otherwise edge when the variant is not listed)"""
+    bi, adt, m, otherwise, pl, allv = sw
+    if name in m:
+        return m[name]
+    if name in allv:
+        return otherwise
+    return None
+
+
 def exclusive_region(body, start, stops=()):
     """blocks reachable from start that are dominated by start (the arm's own region)"""
     dom = dominators(body)
